@@ -32,7 +32,7 @@ def main():
     ap = argparse.ArgumentParser()
     ap.add_argument("name"); ap.add_argument("prop"); ap.add_argument("outdir")
     ap.add_argument("--pkgdir", default=None); ap.add_argument("--run", default=None); ap.add_argument("--needs", default="")
-    ap.add_argument("--checks", default=None)
+    ap.add_argument("--checks", default=None); ap.add_argument("--democmd", default="go run .")
     a = ap.parse_args()
     wt = "/tmp/vseed/" + a.name
     shutil.rmtree(wt, ignore_errors=True)
@@ -65,8 +65,8 @@ def main():
             gm = re.sub(r"(replace\s+github.com/alttpo/snes\s*=>\s*)\S+", r"\g<1>" + wt, gm)
             open(os.path.join(scratch_demo, "go.mod"), "w").write(gm)
             def demo():
-                return sh("go run .", cwd=scratch_demo)
-            demo_cmd = "demo/ with its go.mod replace pointed at the worktree ; go run ."
+                return sh(a.democmd, cwd=scratch_demo)
+            demo_cmd = "demo/ with its go.mod replace pointed at the worktree ; " + a.democmd
         rc0, out0 = demo()
         log.append("demo on unmodified code: exit %d" % rc0)
         rc, out = sh("git apply %s" % patch, cwd=wt)
